@@ -28,6 +28,18 @@ class CFG:
             B.term = fn.nodes[b["term"]] if "term" in b else None
             B.termk = b.get("termk")
             B.cond = fn.nodes[b["cond"]] if "cond" in b else None
+            # `if (a || b)`: clang ends the block that evaluates `b` with the IfStmt and reports the whole `a || b` as its
+            # condition; the branch is decided by the last operand, the earlier ones have their own blocks.
+            if B.cond is not None and B.termk in ("IfStmt", "WhileStmt", "ForStmt", "DoStmt", "ConditionalOperator"):
+                c = B.cond
+                while True:
+                    while c.k == "ParenExpr" and c.children:
+                        c = c.children[0]
+                    if c.k == "BinaryOperator" and c.op in ("&&", "||"):
+                        c = c.children[1]
+                        continue
+                    break
+                B.cond = c
             B.label = fn.nodes[b["label"]] if "label" in b else None
             B.abort = bool(b.get("noreturn"))
             B.raw_succs = list(b["s"])
